@@ -781,8 +781,8 @@ def run(ctx: Ctx):
     none_row_corpus(ctx)
     derived_after_query(ctx, ctx.budget(250, 6000))
     mutable_option_family(ctx, ctx.budget(250, 6000))
-    anchor_stream_family(ctx, ctx.budget(40, 800), ctx.budget(30, 60))
-    history_family(ctx, ctx.budget(500, 12000))
+    anchor_stream_family(ctx, ctx.budget(40, 400), ctx.budget(30, 60))
+    history_family(ctx, ctx.budget(500, 8000))
     ea = empty_alphabet_dfas()
     for a in ea:
         do_emptyfin(ctx, a, "empty_alphabet")
